@@ -91,9 +91,8 @@ class Getter:
             One special field named "sid" contains the Sid
         """
         # shortcut if Sid is not a search
-        sid = Sid(search_sid)
-        if is_plain_sid(sid):
-            generator = self.do_get([sid], attributes=attributes, sid_encode=sid_encode)
+        if is_plain_sid(search_sid):
+            generator = self.do_get([Sid(search_sid)], attributes=attributes, sid_encode=sid_encode)
         else:
             search_sids = unfold_search(search_sid)
             generator = self.do_get(search_sids, attributes=attributes, sid_encode=sid_encode)
